@@ -112,6 +112,28 @@ func (e *Exec) snapOpen(op Op) {
 		} else {
 			ps.Close() // the child snapshot alone must keep its data alive
 		}
+		if op.Flag {
+			// an iterator on the child collection's snapshot as the handle
+			it, err := cs.StartIterator(nil, nil, moss.IteratorOptions{})
+			if err != nil {
+				e.fail("iterator-error", "StartIterator on child %q: %v", name, err)
+			}
+			if it == nil {
+				if len(h.want.KV) > 0 {
+					e.failD("frozen-violated", map[string]string{"symptom": "missing", "where": "iterator"},
+						"StartIterator on child %q returned a nil iterator, the child holds %d live keys", name, len(h.want.KV))
+				}
+			} else {
+				h.it = it
+				h.rest = h.want.SortedKeys()
+				if op.N&2 != 0 {
+					cs.Close() // ... and it outlives the child snapshot
+					h.ss = nil
+					e.probe("iterator-outlives-snapshot")
+				}
+				e.probe("child-iterator-handle")
+			}
+		}
 	case "store":
 		if e.store == nil {
 			return
